@@ -780,6 +780,18 @@ def _crop(ctx, prog):
         if len(rest) == 1:
             ids = rest[0]            # the fall-back is judged below
         elif not rest and verdicts and not unk_:
+            ctx.ob("C11.3", red[0], not bad_,
+                   "time crop: None bounds default to the first / last "
+                   "timestamp (judged per world)", key="C11.3:defaults")
+            raises = [e for e in r.of_kind("raise")
+                      if (end, "Lt", start) in _cmp_set(e.live)]
+            okr = bool(raises) and raises[0].idx < red[0].idx
+            ctx.ob("C11.3", f, okr,
+                   "time crop: start > end raises before the reduction"
+                   if okr else "time crop: start > end is not refused",
+                   key="C11.3:refuse")
+            ctx.ob("C11.3", red[0], True, "time crop goes through "
+                   "reduce_to_ids", key="C11.3:via-reduce", nontrivial=False)
             return
     ss = _sorted_search_crop(ids, ts)
     if ss is not None:
